@@ -5,10 +5,10 @@ from props import rt_common as R
 ID = "C11"; MODEL = "rt"; IMPL = "rt"
 COQ_PROP = "Properties/C11.v"; COQ_DIRS = ["Common", "CQueue", "Runtime"]
 COQ_MODULE = "Runtime.ModelCq"; RUN_FN = "run"
-THEOREMS = ["C11_limited_log_is_longest_admissible_prefix", "C11_longest_admissible_prefix_spec", "C11_nothing_lost", "C11_end_time_and_count", "C11_event_count_limit", "C11_time_limit", "C11_and_or", "C11_limit_algebra", "C11_builder_composes_with_or", "C11_run_total", "C11_run_over_cqueue_eq_run_over_spec", "C11_limited_log_is_longest_admissible_prefix_cq", "C11_nothing_lost_cq", "C11_event_count_limit_cq", "C11_time_limit_cq", "C11_run_total_cq"]
+THEOREMS = ["C11_limited_log_is_longest_admissible_prefix", "C11_longest_admissible_prefix_spec", "C11_nothing_lost", "C11_end_time_and_count", "C11_event_count_limit", "C11_time_limit", "C11_and_or", "C11_limit_algebra", "C11_builder_composes_with_or", "C11_run_total", "C11_run_over_cqueue_eq_run_over_spec", "C11_limited_log_is_longest_admissible_prefix_cq", "C11_nothing_lost_cq", "C11_event_count_limit_cq", "C11_time_limit_cq", "C11_run_total_cq", "C11_any_event_set_limited_log_is_longest_admissible_prefix", "C11_any_event_set_nothing_lost", "C11_any_event_set_event_count_limit", "C11_any_event_set_time_limit", "C11_any_event_set_and_or", "C11_any_event_set_run_total", "C11_limited_log_over_spec_event_set", "C11_limited_log_over_calendar_queue_event_set", "C11_limited_log_is_longest_admissible_prefix_heap", "C11_nothing_lost_heap", "C11_event_count_limit_heap", "C11_time_limit_heap", "C11_and_or_heap", "C11_run_total_heap"]
 QUICK_N = 2500; THOROUGH_N = 150000
 CLAIM = dict(
-    text="Machine-checked (Coq 8.16, axiom-free) for every scripted event program, start time, pre-run schedule and every limit tree (None, EventCount, SimTime, nested And/Or): the run with the limit handles exactly the longest prefix of the unlimited run's dispatch sequence no element of which, at its position and time, satisfies RuntimeLimit::applies (same events, order, times; prefix/admissible/stopper/longest characterisation proved); EventCount(n) = first min(n, available) events; SimTime(T) = exactly the events with timestamp <= T; Or stops with the earlier, And with the later component; nothing is lost (accepted add_events = handled + remaining as a multiset of (time,label)); end time = time of the last handled event (start time if none); event_count = number handled; the Boolean algebra of And/Or and monotonicity of applies; Builder::max_itr/max_time/limit compose with Or; the event loop terminates. The model is tied to des::runtime by differential runs (extracted model vs the real Runtime<App> over the real CQueue, three runs per script) on every invocation, plus an independent monitor that evaluates the property on the implementation's own unlimited and limited runs. COMPOSITION: Runtime/ModelCq.v is the same runtime threading the concrete calendar-queue state (cq_new_at n t start, add, peek_time, fetch_next, len, where the cqueue-backed FutureEventSet calls them); Runtime/Compose.v proves by forward simulation (queue part: C01's refinement relation) that for all n,t>=1 it prints exactly what the model over the specification prints (run_over_cqueue_eq_run_over_spec), and the headline statements are restated and proved for the runtime over the calendar queue for every queue parameterisation (*_cq theorems); the extracted runner executes this composed model with the script's (n,t).",
+    text="Machine-checked (Coq 8.16, axiom-free) for every scripted event program, start time, pre-run schedule and every limit tree (None, EventCount, SimTime, nested And/Or): the run with the limit handles exactly the longest prefix of the unlimited run's dispatch sequence no element of which, at its position and time, satisfies RuntimeLimit::applies (same events, order, times; prefix/admissible/stopper/longest characterisation proved); EventCount(n) = first min(n, available) events; SimTime(T) = exactly the events with timestamp <= T; Or stops with the earlier, And with the later component; nothing is lost (accepted add_events = handled + remaining as a multiset of (time,label)); end time = time of the last handled event (start time if none); event_count = number handled; the Boolean algebra of And/Or and monotonicity of applies; Builder::max_itr/max_time/limit compose with Or; the event loop terminates. The model is tied to des::runtime by differential runs (extracted model vs the real Runtime<App> over the real CQueue, three runs per script) on every invocation, plus an independent monitor that evaluates the property on the implementation's own unlimited and limited runs. COMPOSITION: Runtime/ModelCq.v is the same runtime threading the concrete calendar-queue state (cq_new_at n t start, add, peek_time, fetch_next, len, where the cqueue-backed FutureEventSet calls them); Runtime/Compose.v proves by forward simulation (queue part: C01's refinement relation) that for all n,t>=1 it prints exactly what the model over the specification prints (run_over_cqueue_eq_run_over_spec), and the headline statements are restated and proved for the runtime over the calendar queue for every queue parameterisation (*_cq theorems); the extracted runner executes this composed model with the script's (n,t). GENERIC LEVEL: every statement is also proved for the runtime over ANY future event set satisfying an explicit interface (Runtime/EvSet.v: new/add/peek_time/fetch_next/len with six facts, peek purity by type), with an oracle for backends whose order among equal timestamps is unspecified (C1x_any_event_set_* theorems), and instantiated for the specification, the calendar queue (every n,t>=1) and the BinaryHeap backend of a des built without `cqueue` (every oracle; *_heap theorems; that backend is exercised by `check.py C01 --part heap`).",
     note="Trusted: Coq kernel; extraction (ExtrOcamlBasic only) cross-checked in-Coq by vm_compute on a sample each run; harness/generator quality bounds the tie to the code; the event set is the two-list specification of C01 (C01_refines_spec / _at tie it to the calendar queue for every n,t, incl. new_at and peek_time), composed with the runtime model inside Coq (Runtime/Compose.v); user code is a scripted handler table with a global action budget; usize/Duration overflow out of scope.",
     technique="Coq proof by induction over the event loop (fuelled, fuel sufficiency proved from a decreasing measure) + invariant + differential correspondence check",
     design="6/C11")
